@@ -37,7 +37,9 @@ ROUTES = ['ok', 'stream', 'ctx', 'static-small', 'static-big', 'static-empty', '
           'http403', 'meta', 'meta-json', 'gz', 'cache', 'reroute-raise', 'reroute-ep', 'reroute-fn-ep', 'reroute-deco-raise', 'sub-ok', 'empty', 'bytes-big',
           'static-noext-big', 'static-noext-big', 'static-noext-small', 'branch-ctl1', 'branch-ctl2', 'branch-ctl3', 'http520', 'http520', 'ctx-surrogate', 'ctx-surrogate', 'target-fails-late', 'target-fails-late',
           # the static application under a compressing middleware (clients that accept gzip, HEAD, aborted transfers)
-          'static-gz-small', 'static-gz-big', 'static-gz-big']
+          'static-gz-small', 'static-gz-big', 'static-gz-big',
+          # file names that are awkward in response headers; an endpoint whose result never becomes a Response
+          'static-unicode-name', 'static-unicode-name', 'static-newline-name', 'nonresp', 'nonresp']
 PATH = {'ok': '/ok', 'stream': '/stream', 'ctx': '/ctx', 'static-small': '/s/a.txt', 'static-big': '/s/big.bin',
         'static-missing': '/s/nope', 'static-empty': '/s/empty.txt', 'static-oddtime': '/s/odd.txt', 'reroute-branch': '/rb/', 'reroute-branch-noslash': '/rb',
         'reroute-branch-dslash': '/rb//', 'reroute-app': '/r3/some/path', 'branch': '/b', 'missing': '/missing', 'm405': '/g', 'boom': '/boom',
@@ -45,7 +47,8 @@ PATH = {'ok': '/ok', 'stream': '/stream', 'ctx': '/ctx', 'static-small': '/s/a.t
         'reroute-raise': '/rr', 'reroute-ep': '/r2', 'reroute-fn-ep': '/r4', 'reroute-deco-raise': '/r5',
         'http520': '/http520', 'ctx-surrogate': '/ctxs', 'target-fails-late': '/rfail', 'branch-ctl1': '/bx/q%01', 'branch-ctl2': '/bx/a%00b%1F', 'branch-ctl3': '/bx/%7F%0B%1B[31m',
         'static-noext-big': '/s/LICENSE', 'static-noext-small': '/s/README', 'sub-ok': '/in/x', 'empty': '/empty', 'bytes-big': '/big',
-        'static-gz-small': '/sgz/a.txt', 'static-gz-big': '/sgz/big.bin'}
+        'static-gz-small': '/sgz/a.txt', 'static-gz-big': '/sgz/big.bin',
+        'static-unicode-name': '/s/%E6%97%A5%E6%9C%AC%E8%AA%9E.txt', 'static-newline-name': '/s/two%0Alines.txt', 'nonresp': '/nonresp'}
 METHODS = ['GET', 'GET', 'HEAD', 'POST', 'OPTIONS']
 HEADER_SETS = [{'If-Modified-Since': 'Fri, 01 Jan 2100 00:00:00 GMT'}, {'If-Modified-Since': 'Thu, 01 Jan 1970 00:00:10 GMT'},
                {}, {'Accept': 'text/html'}, {'Accept': 'application/json'}, {'Accept-Encoding': 'gzip'},
@@ -334,7 +337,8 @@ class C13(Check):
                   ('/http520', http520), ('/ctxs', ctx_surrogate, render_json), ('/rfail', RerouteWSGI(failing_target)), ('/rr', rr), ('/r2', RerouteWSGI(target)), ('/r4', RerouteWSGI(legacy_app)), ('/r5', rr5), ('/rb/', RerouteWSGI(target)),
                   ('/r3/<rest*>', RerouteWSGI(target.inner_app)), ('/in', inner), ('/empty', empty), ('/big', big),
                   ('/in2', Application([('/y', ok)], middlewares=objs('t', cfg.get('sib_wrappers', [])))),
-                  ('/sgz', Application([('/', StaticApplication(root))], middlewares=[GzipMiddleware()]))]
+                  ('/sgz', Application([('/', StaticApplication(root))], middlewares=[GzipMiddleware()])),
+                  ('/nonresp', lambda: {'not': 'a response'})]
         app = Application(routes, middlewares=objs('o', cfg['outer_wrappers']), debug=cfg['debug'],
                           slash_mode=cfg.get('slash', 'redirect'))
         if cfg.get('handler_switched'):
@@ -362,6 +366,10 @@ class C13(Check):
             with open(os.path.join(root, 'odd.txt'), 'wb') as f:
                 f.write(b'a file from the far future\n')
             os.utime(os.path.join(root, 'odd.txt'), (2.6e11, 2.6e11))      # year ~10200: not a datetime (kept by tmpfs)
+            with open(os.path.join(root, '\u65e5\u672c\u8a9e.txt'), 'wb') as f:     # a name outside ISO-8859-1
+                f.write(b'nihongo\n')
+            with open(os.path.join(root, 'two\nlines.txt'), 'wb') as f:              # a name with a line break in it
+                f.write(b'a file whose name has two lines\n')
             seam = FsSeam()
             target = Target()
             with Seams() as sm:
@@ -597,7 +605,7 @@ class C13(Check):
             res.probe('reroute-same-environ')
             return
         # --- a few status expectations (the rest is C06/C08 territory) -------
-        expect = {'ok': 200, 'stream': 200, 'ctx': 200, 'static-small': 200, 'static-big': 200, 'static-empty': 200, 'static-noext-big': 200, 'static-noext-small': 200, 'static-missing': 404, 'static-gz-small': 200, 'static-gz-big': 200,
+        expect = {'ok': 200, 'stream': 200, 'ctx': 200, 'static-small': 200, 'static-big': 200, 'static-empty': 200, 'static-noext-big': 200, 'static-noext-small': 200, 'static-missing': 404, 'static-gz-small': 200, 'static-gz-big': 200, 'static-unicode-name': 200, 'static-newline-name': 200, 'nonresp': 500,
                   'branch': 302, 'missing': 404, 'boom': 500, 'http403': 403, 'http520': 520, 'ctx-surrogate': 200, 'meta': 200, 'meta-json': 200, 'gz': 200,
                   'cache': 200, 'sub-ok': 200, 'empty': 200, 'bytes-big': 200}
         want = expect.get(route)
@@ -612,7 +620,7 @@ class C13(Check):
             want = {'redirect': 302, 'rewrite': 200, 'strict': 404}[mode]
             if route != 'branch':
                 res.probe('slash-redirect-of-a-path-with-control-characters')
-        if route in ('meta', 'meta-json', 'static-small', 'static-big', 'static-empty', 'static-noext-big', 'static-noext-small', 'static-missing', 'static-oddtime', 'sub-ok', 'static-gz-small', 'static-gz-big') and mode == 'strict':
+        if route in ('meta', 'meta-json', 'static-small', 'static-big', 'static-empty', 'static-noext-big', 'static-noext-small', 'static-missing', 'static-oddtime', 'sub-ok', 'static-gz-small', 'static-gz-big', 'static-unicode-name', 'static-newline-name') and mode == 'strict':
             want = None      # embedded applications under a strict host: slash handling of their mounts is C07 territory
         if route == 'static-oddtime':
             res.probe('static-file-with-unrepresentable-mtime')
